@@ -1,6 +1,6 @@
 /* C12: src/mtbl_verify.c verify_data_blocks (real) over a symbolic file of <= 3 data blocks, v1 or v2 framing,
  * each block's stored checksum intact or damaged, any claimed block count / byte total. */
-#include "/repo/src/mtbl_verify.c"
+#include "src/mtbl_verify.c"
 #include "spec/ghost.h"
 
 #define NB 3
